@@ -318,6 +318,14 @@ def cases(tier, seed):
         for cplx in (False, True):
             for tol in (1e-12, 1e-7, 1e-3):
                 out.append(["SCALE", n1, n2, cplx, tol])
+    # tol = 0: the exhaustion test never fires, so the cap min(max_iters, n) is the only thing that ends the run (generic start vectors on
+    # simple spectra: the Krylov space is exhausted exactly at n)
+    for fam in ("definite", "indefinite"):
+        for n in (1, 2, 3, 5, 6):
+            for cplx in (False, True):
+                for vk in ("rand", "batch"):
+                    for entry in (("lanczos", "lanczos_eigs", "Lanczos()") if vk == "rand" else ("lanczos", )):
+                        out.append([fam, n, cplx, vk, 0.0, entry, list(range(1, n + 4))])
     return out
 
 
@@ -329,7 +337,7 @@ def describe(tier, seed):
     return {
         "bound": "Hermitian operators {definite, indefinite, repeated (3 distinct values), clustered (gap 1e-6), definite at scale 2^-45, indefinite at scale 2^40} real / complex and Identity / ScalarMul / "
                  "Diagonal operators, n in " + str(_DESC.get("sizes")) + "; start vectors {random, random at scale 2^-45, float32 / complex64, integer, complex on a real operator, eigenvector, sum of 2 / 3 eigenvectors, 2-column "
-                 "batch, default keyed}; every max_iters in 1..n+3 (n<=6) / {1,2,5,n-1,n,n+5,1000}; tol in {1e-12, 1e-7, 1e-3}; entry points lanczos, "
+                 "batch, default keyed}; every max_iters in 1..n+3 (n<=6) / {1,2,5,n-1,n,n+5,1000}; tol in {1e-12, 1e-7, 1e-3} (and 0 for generic start vectors: only the cap ends the run); entry points lanczos, "
                  "lanczos_eigs, Lanczos()(A)",
         "alphabet": _DESC,
         "oracle": "columns <= min(max_iters, n); Q^H Q = I; first column v/|v|; T real symmetric tridiagonal with off-diagonal >= 0 and equal to Q^H A Q; "
